@@ -4,9 +4,13 @@ package store
 
 import (
 	"sync/atomic"
+	"time"
 
 	"github.com/canopy-network/canopy/lib"
 	"github.com/canopy-network/canopy/lib/crypto"
+	"github.com/cockroachdb/pebble/v2"
+	"github.com/cockroachdb/pebble/v2/sstable"
+	"github.com/cockroachdb/pebble/v2/vfs"
 )
 
 // This file exists only under the `verif` build tag. It gives the external verification harness
@@ -45,4 +49,39 @@ func verifPoint(name string, i int) {
 	if f := VerifPoint.Load(); f != nil {
 		(*f)(name, i)
 	}
+}
+
+// VerifNewStoreOnFS() is NewStore() on a caller-supplied file system (ex. pebble's crashable in-memory FS): the
+// pebble options are the ones of NewStore() except for the FS, the cache size and, when memTableSize != 0, the
+// memtable size (small memtables put flushes and compactions inside short test runs)
+func VerifNewStoreOnFS(config lib.Config, fs vfs.FS, path string, memTableSize uint64, log lib.LoggerI) (*Store, lib.ErrorI) {
+	cache := pebble.NewCache(8 << 20)
+	defer cache.Unref()
+	lvl := pebble.LevelOptions{
+		BlockSize:      64 << 10,
+		IndexBlockSize: 32 << 10,
+		Compression:    func() *sstable.CompressionProfile { return getCompressionProfile(config.CompressionProfile) },
+	}
+	if memTableSize == 0 {
+		memTableSize = 64 << 20
+	}
+	db, err := pebble.Open(path, &pebble.Options{
+		FS:                      fs,
+		MemTableSize:            memTableSize,
+		L0CompactionThreshold:   6,
+		L0StopWritesThreshold:   12,
+		MaxOpenFiles:            5000,
+		Cache:                   cache,
+		FormatMajorVersion:      pebble.FormatColumnarBlocks,
+		LBaseMaxBytes:           512 << 20,
+		Levels:                  [7]pebble.LevelOptions{lvl, lvl, lvl, lvl, lvl, lvl, lvl},
+		TargetFileSizes:         [7]int64{32 << 20, 64 << 20, 128 << 20, 128 << 20, 128 << 20, 128 << 20, 128 << 20},
+		Logger:                  log,
+		BlockPropertyCollectors: []func() pebble.BlockPropertyCollector{newVersionedPropertyCollector},
+		WALMinSyncInterval:      func() time.Duration { return time.Millisecond * 2 },
+	})
+	if err != nil {
+		return nil, ErrOpenDB(err)
+	}
+	return NewStoreWithDB(config, db, nil, log)
 }
